@@ -110,7 +110,7 @@ def assembled(M, rects):
     return A
 
 
-def read_deepest(root, fmt, level):
+def read_deepest(root, fmt, level, ranges=None):
     from toasty.pyramid import PyramidIO, Pos
 
     pio = PyramidIO(root, default_format=fmt)
@@ -121,6 +121,8 @@ def read_deepest(root, fmt, level):
             if img is not None:
                 a = np.asarray(img.asarray())
                 out[(x, y)] = a[::-1] if fmt == "fits" else a
+                if ranges is not None and fmt == "fits":
+                    ranges[(x, y)] = (img.data_min, img.data_max)
     return out
 
 
@@ -186,8 +188,14 @@ def serial_case(d, size, dname, rects, bottom_up, order, fmt, part):
         bad("description-differs", "; ".join(diffs[:5]))
     if b.imgset.tile_levels != lev:
         return
-    got = read_deepest(root, fmt, lev)
-    want = read_deepest(ref_root, fmt, lev)
+    rg, rw = {}, {}
+    got = read_deepest(root, fmt, lev, rg)
+    want = read_deepest(ref_root, fmt, lev, rw)
+    for k in sorted(set(rg) & set(rw)):
+        a, b = rg[k], rw[k]
+        if (a[0] is None) != (b[0] is None) or (a[0] is not None and not (np.isclose(a[0], b[0], rtol=1e-6) and np.isclose(a[1], b[1], rtol=1e-6))):
+            bad("tile-data-range-differs", "tile (%d,%d): DATAMIN/DATAMAX %r in the multi-TAN tile, %r when tiling the mosaic" % (k[0], k[1], a, b))
+            break
     if set(got) != set(want):
         bad("tile-set", "multi-TAN tiles %r, mosaic tiles %r" % (sorted(set(got) - set(want))[:3], sorted(set(want) - set(got))[:3]))
     for k in sorted(set(got) & set(want)):
@@ -203,12 +211,73 @@ def serial_case(d, size, dname, rects, bottom_up, order, fmt, part):
         bad("lock-files-remain", repr(locks[:3]))
 
 
+def blankval_case(d, blank, order, part):
+    """Inputs read from FITS files with a blank value marking undefined borders (the --blankval option),
+    overlapping defined pixels of the neighbour: same result as tiling the assembled mosaic."""
+    from astropy.io import fits
+    from toasty import collection
+    from toasty.builder import Builder
+    from toasty.multi_tan import MultiTanProcessor
+    from toasty.pyramid import PyramidIO
+
+    size = (300, 280)
+    w, h = size
+    cfg = {"blankval": blank, "order": list(order), "mosaic": size}
+    part.case(nontrivial=True)
+
+    def bad(clause, detail):
+        part.violation("%s/fits" % clause, "%r: %s" % (cfg, detail), cfg)
+
+    M = mosaic_data(w, h)
+    wcs = mosaic_wcs(w, h)
+    rects = [(0, 0, 170, h, 12), (150, 0, w, h, 12)]
+    paths = []
+    for k, (x0, y0, x1, y1, nb) in enumerate(rects):
+        dsub = M[y0:y1, x0:x1].copy()
+        dsub[:nb, :] = blank
+        dsub[-nb:, :] = blank
+        dsub[:, :nb] = blank
+        dsub[:, -nb:] = blank
+        ww, dd = flip(sub_wcs(wcs, x0, y0), dsub)
+        p = os.path.join(d, "bv%d.fits" % k)
+        fits.PrimaryHDU(dd, header=ww.to_header()).writeto(p, overwrite=True)
+        paths.append(p)
+    A = assembled(M, rects)
+    root = os.path.join(d, "bv")
+    shutil.rmtree(root, ignore_errors=True)
+    try:
+        with quiet():
+            ref_root, ref_b = reference_route(d, A, wcs, "fits")
+            coll = collection.load([paths[i] for i in order], blankval=blank)
+            pio = PyramidIO(root, default_format="fits")
+            b = Builder(pio)
+            proc = MultiTanProcessor(coll)
+            proc.compute_global_pixelization(b)
+            proc.tile(pio, parallel=1)
+    except Exception as e:
+        bad("blankval-raises:%s" % type(e).__name__, repr(e))
+        return
+    lev = ref_b.imgset.tile_levels
+    got = read_deepest(root, "fits", lev)
+    want = read_deepest(ref_root, "fits", lev)
+    for k in sorted(set(got) | set(want)):
+        if k not in got or k not in want or not np.array_equal(got[k], want[k], equal_nan=True):
+            n = -1 if (k not in got or k not in want) else int((~((got[k] == want[k]) | (np.isnan(got[k]) & np.isnan(want[k])))).sum())
+            bad("blankval-tile-pixels", "tile (%d,%d) differs from the mosaic's at %d pixels (blank value %r not treated as undefined?)" % (k[0], k[1], n, blank))
+            break
+
+
 def _serial_job(cases):
     part = Part()
     with scratch("c09") as d:
         for c in cases:
+            if c[0] == "blankval":
+                blankval_case(d, c[1], c[2], part)
+                continue
             serial_case(d, *c, part=part)
-        part.sample({"mosaic": cases[0][0], "decomposition": cases[0][1], "rects": cases[0][2], "bottom_up": cases[0][3], "order": cases[0][4], "format": cases[0][5]})
+        first = [c for c in cases if c[0] != "blankval"]
+        if first:
+            part.sample({"mosaic": first[0][0], "decomposition": first[0][1], "rects": first[0][2], "bottom_up": first[0][3], "order": first[0][4], "format": first[0][5]})
     return part
 
 
@@ -321,6 +390,9 @@ def run(tier, seed):
                         if tier == "quick" and size[0] >= 600 and not ("nan" in dname or dname in ("three", "quad-l")):
                             continue
                         cases.append((size, dname, rects, bottom_up, order, fmt))
+    for blank in (0.0, -999.0, 0):
+        for order in ((0, 1), (1, 0)):
+            cases.append(("blankval", blank, order))
     cases = rng_order(cases, seed)
     n = 28
     jobs = [("serial", cases[i::n]) for i in range(n) if cases[i::n]]
@@ -359,6 +431,12 @@ def replay(payload):
             print("REPLAY-FAIL", sig, detail)
         return 1 if viol else 0
     part = Part()
+    if "blankval" in r:
+        with scratch("c09r") as d:
+            blankval_case(d, r["blankval"], tuple(r["order"]), part)
+        for sig, (detail, _) in part.violations.items():
+            print("REPLAY-FAIL", sig, detail[:400])
+        return 1 if part.violations else 0
     with scratch("c09r") as d:
         rects = None
         for dname, rr in decompositions(r["mosaic"][0], r["mosaic"][1], "thorough"):
